@@ -797,6 +797,11 @@ class TriaMesh:
         # project tumin back to tria plane and normalize
         tumin2 = tumin - tn * (np.sum(tn * tumin, axis=1)).reshape(-1, 1)
         tuminl = np.sqrt(np.sum(tumin2 * tumin2, axis=1)).reshape(-1, 1)
+        # where the pooled direction has no component in the triangle plane, fall
+        # back to the first edge direction (any unit vector in the plane will do)
+        noplane = tuminl[:, 0] < 1e-8
+        tumin2[noplane, :] = e0[noplane, :]
+        tuminl[noplane, 0] = np.sqrt(np.sum(e0[noplane, :] * e0[noplane, :], axis=1))
         tumin2 = tumin2 / np.maximum(tuminl, 1e-8)
         # project tumax back to tria plane and normalize
         #   (will not be orthogonal to tumin)
